@@ -21,7 +21,11 @@ RULE = ("exhaustive box of FullGrid specifications: bare numbers n_b, n_o in 1..
         "for the same radii (bare int/float/exponent number with spaces/parentheses/sign, list, tuple, bare comma list, trailing comma, "
         "nested, unsorted, linspace incl. n=1 and descending, range incl. default and negative step; arbitrary, equally spaced and "
         "integer nm values), every spelling family x both modes x n_t in 1..3 exhaustively on small grids, at random elsewhere, the "
-        "model being fed the denoted radii, never the text; plus seed-dependent specs (random strictly ascending radii, "
+        "model being fed the denoted radii, never the text; every argument handed to the package (names, algorithm names, roles, "
+        "radial text as str / run-time-built str / np.str_ / str subclass; N as int / np.int64 / np.int32 / np.uint16 / 0-d integer array; "
+        "flags as bool / np.bool_ / 0-1; factor as default / float / int / np.float64 / np.float32 / 0-d array; radii arrays as float64 / "
+        "list / tuple / float32 / integer dtypes / non-contiguous / read-only) is given in a representation drawn per case from the seed, "
+        "with an exhaustive one-at-a-time sweep on fixed small cases, the model being fed the denoted values; plus seed-dependent specs (random strictly ascending radii, "
         "sizes up to 12), cell-model method calls for every (dim, algorithm, N, method, only_upper), radial helper calls "
         "(incl. single, repeated, zero and empty radii) and name resolutions (incl. rejected names). A full-grid case is "
         "non-trivial when the constructor succeeded and all five getters were evaluated; distinct by (b, o, t, mode)")
@@ -220,6 +224,107 @@ def strictly_positive_ascending(r):
 
 
 # ----------------------------------------------------------------------------------------------
+# representations of the arguments handed to the package: the same denoted value as another Python / numpy object.
+# A case records only the NAME of the representation of each argument (case["rep"]); the model is fed the denoted value.
+# Established on the unchanged tree (every listed representation is accepted and gives results identical to the plain
+# Python argument: FullGrid getters value by value, factories incl. grid, cell model class and all five cell methods,
+# GridNameParser, get_increments / get_between_radii); the excluded ones are listed with the reason.
+# ----------------------------------------------------------------------------------------------
+class _StrSub(str):
+    """a str subclass (what a str-mixin Enum member or numpy string scalar is)"""
+
+
+STR_REPS = {
+    "str": lambda s: s,
+    "built_str": lambda s: "".join([c for c in s]),          # a fresh, non-interned object (identity differs)
+    "np.str_": lambda s: np.str_(s),
+    "str_subclass": lambda s: _StrSub(s),
+}
+INT_REPS = {
+    "int": int,
+    "np.int64": np.int64,
+    "np.int32": np.int32,
+    "np.uint16": np.uint16,
+    "0d_int_array": lambda n: np.array(int(n)),
+    "0d_uint16_array": lambda n: np.array(int(n), dtype=np.uint16),
+}
+FLAG_REPS = {
+    "bool": bool,
+    "np.bool_": np.bool_,
+    "int01": int,
+}
+REAL_REPS = {                                                # used for FullGrid(factor=...), denoted value 2
+    "default": None,                                         # argument not passed
+    "float": float,
+    "int": int,
+    "np.float64": np.float64,
+    "np.float32": np.float32,
+    "0d_array": lambda x: np.array(float(x)),
+}
+
+
+def _noncontig(a):
+    big = np.zeros(2 * len(a), dtype=float)
+    big[::2] = a
+    return big[::2]
+
+
+def _readonly(a):
+    b = np.array(a, dtype=float)
+    b.setflags(write=False)
+    return b
+
+
+ARRAY_REPS = {                                               # used for get_increments / get_between_radii
+    "float64": lambda v: np.array(v, dtype=float),
+    "list": lambda v: [float(x) for x in v],
+    "tuple": lambda v: tuple(float(x) for x in v),
+    "list_of_np_scalars": lambda v: [np.float64(x) for x in v],
+    "noncontiguous": lambda v: _noncontig(np.array(v, dtype=float)),
+    "readonly": _readonly,
+    "float32": lambda v: np.array(v, dtype=np.float32),      # only exactly representable values
+    "int64": lambda v: np.array(v, dtype=float).astype(np.int64),      # only integer values
+    "int_list": lambda v: [int(x) for x in v],                         # only integer values
+    "uint16": lambda v: np.array(v, dtype=float).astype(np.uint16),    # only integer values, ascending
+}
+REPS_EXCLUDED = {
+    "np.uint64 as N": "unchanged tree: SphereGrid4DFactory.create raises TypeError (2*N becomes float64 in numpy 1.26)",
+    "unsigned integer array that is not ascending, as radii": "unchanged tree: get_increments wraps around (uint16 [2, 1] gives "
+        "65535 and passes the assert) where the float array raises AssertionError; outside the quantifier (the radial parser "
+        "always hands over an ascending float64 array), so left out rather than reported",
+    "float32 for values that are not exactly representable": "denotes another number",
+    "int / integer dtypes for non-integer values": "denotes another number",
+}
+
+
+def array_reps_for(v):
+    """names of the array representations that denote exactly the values v"""
+    v = [float(x) for x in v]
+    names = ["float64", "list", "tuple", "list_of_np_scalars", "noncontiguous", "readonly"]
+    if all(float(np.float32(x)) == x for x in v):
+        names.append("float32")
+    if all(x.is_integer() and abs(x) < 2 ** 31 for x in v):
+        names += ["int64", "int_list"]
+        if all(0 <= x < 2 ** 16 for x in v) and all(a <= b for a, b in zip(v, v[1:])):
+            names.append("uint16")
+    return names
+
+
+def _rep(case, arg, table, value):
+    """the object handed to the package for argument `arg` of `case`"""
+    name = (case.get("rep") or {}).get(arg)
+    if name is None:
+        return value
+    obj = table[name](value)
+    # the representation must denote the same value
+    if table is ARRAY_REPS:
+        assert [float(x) for x in obj] == [float(x) for x in value], (arg, name, value)
+    else:
+        assert obj == value, (arg, name, value)
+    return obj
+
+
+# ----------------------------------------------------------------------------------------------
 # implementation side
 # ----------------------------------------------------------------------------------------------
 def _err(e: BaseException):
@@ -254,9 +359,20 @@ def _shape(r):
 def _impl_fullgrid(case):
     from molgri.space.fullgrid import FullGrid
     out = {}
+    frep = (case.get("rep") or {}).get("factor")
+    made = []
+
+    def build():
+        kw = {}
+        if frep not in (None, "default"):
+            kw["factor"] = REAL_REPS[frep](2)                # the default value, in another representation
+            made.append(kw["factor"])
+        return FullGrid(_rep(case, "b", STR_REPS, case["b"]), _rep(case, "o", STR_REPS, case["o"]),
+                        _rep(case, "t", STR_REPS, case["t"]),
+                        position_grid_cartesian=_rep(case, "cart", FLAG_REPS, case["cart"]), **kw)
     try:
         with core.quiet():
-            fg = FullGrid(case["b"], case["o"], case["t"], position_grid_cartesian=case["cart"])
+            fg = build()
     except Exception as e:
         out["ctor"] = _err(e)
         return out
@@ -291,8 +407,14 @@ def _impl_fullgrid(case):
     if order == "both":
         # the same requests in the opposite order on a fresh object (no getter may depend on an earlier one)
         with core.quiet():
-            fg2 = FullGrid(case["b"], case["o"], case["t"], position_grid_cartesian=case["cart"])
+            fg2 = build()
         out["getters_rev"] = _call_getters(fg2, GETTERS[::-1])
+    # neither the argument objects nor the stored scaling factor may have been modified by a getter
+    try:
+        vals = [float(np.asarray(x)) for x in made] + [float(np.asarray(fg.factor))]
+        out["factor_after"] = vals
+    except Exception as e:
+        out["factor_after"] = _err(e)
     return out
 
 
@@ -315,16 +437,19 @@ def _impl_cell(case):
     try:
         with core.quiet():
             fac = SphereGrid3DFactory if case["dim"] == 3 else SphereGrid4DFactory
-            g = fac.create(alg_name=case["alg"], N=case["n"])
+            g = fac.create(alg_name=_rep(case, "alg", STR_REPS, case["alg"]), N=_rep(case, "n", INT_REPS, case["n"]))
     except Exception as e:
         return {"create": _err(e)}
     out = {"create": "ok", "cls": type(g.get_spherical_voronoi()).__name__}
     kw = {}
     if case.get("only_upper") is not None:
-        kw = {"only_upper": case["only_upper"], "include_opposing_neighbours": case["only_upper"]}
+        kw = {"only_upper": _rep(case, "only_upper", FLAG_REPS, case["only_upper"]),
+              "include_opposing_neighbours": _rep(case, "only_upper", FLAG_REPS, case["only_upper"])}
     try:
         with core.quiet():
             out["n"] = int(g.get_N())
+            out["len"] = int(len(g))
+            out["rows"] = int(len(g.get_grid_as_array()))
             r = getattr(g, case["meth"])(**kw)       # SphereGridNDim.__getattr__ forwards to the cell model
         out["out"] = {"ok": _shape(r)}
     except Exception as e:
@@ -334,14 +459,17 @@ def _impl_cell(case):
 
 def _impl_radial(case):
     from molgri.space.translations import get_increments, get_between_radii
-    arr = np.array(case["radii"], dtype=float)
     out = {}
     for nm, f in (("increments", get_increments), ("between", get_between_radii)):
+        arr = _rep(case, "arr", ARRAY_REPS, case["radii"]) if (case.get("rep") or {}).get("arr") else \
+            np.array(case["radii"], dtype=float)
         try:
             with core.quiet():
                 out[nm] = {"ok": [float(x) for x in f(arr)]}
         except Exception as e:
             out[nm] = _err(e)
+        if [float(x) for x in arr] != [float(x) for x in case["radii"]]:
+            out["argument_modified"] = nm
     return out
 
 
@@ -349,8 +477,8 @@ def _impl_resolve(case):
     from molgri.naming import GridNameParser
     try:
         with core.quiet():
-            p = GridNameParser(case["name"], case["role"])
-            return {"ok": [p.get_alg(), p.get_N()]}
+            p = GridNameParser(_rep(case, "name", STR_REPS, case["name"]), _rep(case, "role", STR_REPS, case["role"]))
+            return {"ok": [str(p.get_alg()), int(p.get_N())], "n_type": type(p.get_N()).__name__}
     except Exception as e:
         return _err(e)
 
@@ -552,9 +680,76 @@ def _resolve_cases(ctx):
     return [{"kind": "resolve", "name": nm, "role": role} for nm in names for role in ("o", "b")]
 
 
+def _draw_reps(rng, case):
+    """a seed-chosen representation for every argument of the case"""
+    k = case["kind"]
+    pick = lambda table: rng.choice(sorted(table))
+    if k == "fullgrid":
+        return {"b": pick(STR_REPS), "o": pick(STR_REPS), "t": pick(STR_REPS), "cart": pick(FLAG_REPS),
+                "factor": pick(REAL_REPS)}
+    if k == "cell":
+        r = {"alg": pick(STR_REPS), "n": pick(INT_REPS)}
+        if case.get("only_upper") is not None:
+            r["only_upper"] = pick(FLAG_REPS)
+        return r
+    if k == "resolve":
+        return {"name": pick(STR_REPS), "role": pick(STR_REPS)}
+    if k == "radial":
+        return {"arr": rng.choice(array_reps_for(case["radii"]))}
+    return {}
+
+
+def _rep_sweep_cases(ctx):
+    """every representation family of every argument, one argument at a time (the others plain) and all arguments
+    together, on small fixed cases"""
+    out = []
+    plain_fg = {"b": "str", "o": "str", "t": "str", "cart": "bool", "factor": "default"}
+    tables = {"b": STR_REPS, "o": STR_REPS, "t": STR_REPS, "cart": FLAG_REPS, "factor": REAL_REPS}
+    fixed = [("2", "4", "[0.1, 0.2]", False, [0.1, 0.2]), ("cube4D_4", "randomS_5", "linspace(0.3, 0.9, 3)", True, [0.3, 0.6, 0.9]),
+             ("3", "5", "0.5", True, [0.5])]
+    for i, (b, o, t, cart, nm) in enumerate(fixed):
+        base = {"kind": "fullgrid", "b": b, "o": o, "t": t, "cart": cart, "radii_nm": nm, "family": "rep_sweep",
+                "order": "both" if not ctx.quick else ("fwd" if i % 2 else "rev")}
+        for arg, table in tables.items():
+            for name in table:
+                out.append(dict(base, rep=dict(plain_fg, **{arg: name})))
+        for j in range(6):   # all arguments at once
+            out.append(dict(base, rep={arg: sorted(table)[j % len(table)] for arg, table in tables.items()}))
+    for dim, alg, n in ((4, "cube4D", 5), (3, "ico", 5), (4, "randomQ", 3), (3, "cube3D", 2)):
+        for nrep in INT_REPS:
+            for m in ("_calculate_N_N_array", "get_voronoi_volumes"):
+                out.append({"kind": "cell", "dim": dim, "alg": alg, "n": n, "meth": m, "only_upper": None,
+                            "rep": {"alg": "str", "n": nrep}})
+        for arep in STR_REPS:
+            out.append({"kind": "cell", "dim": dim, "alg": alg, "n": n, "meth": "get_cell_borders", "only_upper": None,
+                        "rep": {"alg": arep, "n": "int"}})
+        for frep in FLAG_REPS:
+            for ou in ((False, True) if dim == 4 else (False,)):
+                out.append({"kind": "cell", "dim": dim, "alg": alg, "n": n, "meth": "get_voronoi_adjacency", "only_upper": ou,
+                            "rep": {"alg": "str", "n": "np.int64", "only_upper": frep}})
+    for name, role in (("5", "o"), ("ico_7", "o"), ("cube4D_3", "b"), ("zero", "b"), ("1", "o"), ("cube4D_3", "o")):
+        for nr in STR_REPS:
+            for rr in STR_REPS:
+                out.append({"kind": "resolve", "name": name, "role": role, "rep": {"name": nr, "role": rr}})
+    for v in ([1.0, 2.0, 4.0], [0.5, 1.0, 3.0], [3.0], [2.0, 1.0], [1.0, 1.0], []):
+        for ar in array_reps_for(v):
+            out.append({"kind": "radial", "radii": v, "rep": {"arr": ar}})
+    return out
+
+
 def cases(ctx):
     groups = [_resolve_cases(ctx), _radial_cases(ctx), _cell_cases(ctx), _fullgrid_cases(ctx)]
     allc = [c for g in groups for c in g]
+    for c in allc:
+        c["rep"] = _draw_reps(ctx.rng, c)
+    allc = _rep_sweep_cases(ctx) + allc
+    ctx.extra_cov["argument_representations"] = {
+        "str (grid names, algorithm names, roles, radial text)": sorted(STR_REPS), "int (N)": sorted(INT_REPS),
+        "flag (position_grid_cartesian, only_upper, include_opposing_neighbours)": sorted(FLAG_REPS),
+        "real (factor = 2)": sorted(REAL_REPS), "array (radii given to get_increments / get_between_radii)": sorted(ARRAY_REPS),
+        "excluded": REPS_EXCLUDED,
+        "coverage": "every case draws the representation of each argument from ctx.rng; every family of every argument is swept "
+                    "one at a time and together on fixed small cases (3 full grids, 4 sphere grids, 6 names, 6 radii arrays)"}
     ctx.extra_cov["cases_by_kind"] = {k: sum(1 for c in allc if c["kind"] == k) for k in _IMPLS}
     ctx.exhaustive = True
     ctx.extra_cov["exhaustive_scope"] = (
@@ -663,6 +858,10 @@ def compare(ctx, case, out, mouts):
                         ctx.corr(f"{what}/{g}" + ("(reverse order)" if tag == "getters_rev" else ""), case,
                                  out[tag][g], m["getters"][g])
                         return
+        # the scaling factor (argument object and stored attribute) is still the value that was passed
+        fa = out.get("factor_after")
+        if fa is not None and (isinstance(fa, dict) or any(v != 2.0 for v in fa)):
+            ctx.corr("fullgrid/factor (argument or attribute) modified by a getter", case, fa, 2.0)
         # radii seen by the implementation = radii the harness computed for the model
         if out["ctor"] == "ok" and "radii" in out:
             mine = intended_radii(case)
@@ -685,15 +884,19 @@ def compare(ctx, case, out, mouts):
         if mm["cls"] != out["cls"]:
             ctx.corr("cell/class", case, out["cls"], mm["cls"])
             return
-        if mm["n"] != out.get("n"):
-            ctx.corr("cell/get_N", case, out.get("n"), mm["n"])
-            return
+        for f in ("n", "len", "rows"):
+            if f in out and mm["n"] != out[f]:
+                ctx.corr({"n": "cell/get_N", "len": "cell/len", "rows": "cell/rows of get_grid_as_array"}[f], case, out[f], mm["n"])
+                return
         if _cls(out["out"]) != _cls(mm["out"]):
             ctx.corr("cell/" + case["meth"], case, out["out"], mm["out"])
         return
     if k == "radial":
         if "ok" not in m:
             ctx.corr("radial/driver", case, out, m)
+            return
+        if "argument_modified" in out:
+            ctx.corr("radial/argument modified in place by " + out["argument_modified"], case, "modified", case["radii"])
             return
         for nm in ("increments", "between"):
             a, b = out[nm], m["ok"][nm]
@@ -729,6 +932,8 @@ def _allowed_error(e, cart, n_o):
 
 def oracle(ctx, case, out):
     k = case["kind"]
+    for arg, name in (case.get("rep") or {}).items():
+        ctx.branch(f"rep:{k}.{arg}:{name}")
     if k == "fullgrid":
         nb, no = requested_n(case["b"]), requested_n(case["o"])
         sb, so = scan_name(case["b"]), scan_name(case["o"])
@@ -814,6 +1019,10 @@ def oracle(ctx, case, out):
                      case, "array", r)
             return
         n = case["n"]
+        for f, what in (("n", "get_N()"), ("len", "len(grid)"), ("rows", "rows of get_grid_as_array()")):
+            if f in out and out[f] != n:
+                ctx.fail(f"C19:cell:{f}", f"a grid requested with N = {n} reports {what} = {out[f]}", case, n, out[f])
+                return
         if case["meth"] == "get_voronoi_volumes":
             if r["ok"] != [n]:
                 ctx.fail(f"C19:cell:{case['meth']}:shape", "one volume per cell expected", case, [n], r["ok"])
@@ -839,5 +1048,10 @@ def oracle(ctx, case, out):
         if "err" in out and out["err"] != "ValueError":
             ctx.fail(f"C19:resolve:{out['err']}", f"GridNameParser raised {out['err']}", case, "(alg, N) | ValueError", out)
         elif "ok" in out:
+            alg, n = out["ok"]
+            valid = (ALGS3 + ("zero3D",)) if case["role"] == "o" else (ALGS4 + ("zero4D",))
+            if alg not in valid or n < 1 or out.get("n_type") != "int":
+                ctx.fail("C19:resolve:not-a-valid-request-of-the-role", f"accepted name resolved to ({alg}, {n}: {out.get('n_type')}) "
+                         f"for role {case['role']}", case, f"algorithm in {valid}, int N >= 1", out)
             ctx.nt(("resolve", case["name"], case["role"]))
         return
